@@ -13,9 +13,10 @@ pub mod c11;
 pub mod c15;
 pub mod c16;
 pub mod c17;
+pub mod c18;
 
 use crate::engine::DynProperty;
 
 pub fn registry() -> Vec<Box<dyn DynProperty>> {
-    vec![Box::new(c01::C01), Box::new(c02::C02), Box::new(c03::C03), Box::new(c06::C06), Box::new(c07::C07), Box::new(c10::C10), Box::new(c11::C11), Box::new(c15::C15), Box::new(c16::C16), Box::new(c17::C17)]
+    vec![Box::new(c01::C01), Box::new(c02::C02), Box::new(c03::C03), Box::new(c06::C06), Box::new(c07::C07), Box::new(c10::C10), Box::new(c11::C11), Box::new(c15::C15), Box::new(c16::C16), Box::new(c17::C17), Box::new(c18::C18)]
 }
